@@ -75,6 +75,8 @@ func execC14(t *testing.T, c C14Case) (v Verdict) {
 	outcomes := map[string]bool{}
 	bigRound := false
 	var failDetail any
+	var liveMu sync.Mutex
+	live := map[string]int{}
 	res := kit.Bubble(t, func() {
 		goat.VerifResetHandlers()
 		svc := kit.NewSvc()
@@ -86,11 +88,13 @@ func execC14(t *testing.T, c C14Case) (v Verdict) {
 			// calls), so a handler whose only exit is its context would occupy one of the eight
 			// unary workers for the rest of the connection; eight of them stop the read loop.
 			// That is an application-level hazard the property does not speak about, so the
-			// handler also finishes by itself after a (virtual) hour.
+			// handler also finishes by itself after 50 virtual milliseconds, and every quiescent
+			// point first lets that time pass (otherwise requests queued behind eight such handlers,
+			// e.g. a cancelled stream's reset, would still be waiting for a worker).
 			select {
 			case <-ctx.Done():
 				return nil, status.FromContextError(ctx.Err()).Err()
-			case <-time.After(time.Hour):
+			case <-time.After(50 * time.Millisecond):
 				return req, nil
 			}
 		})
@@ -130,7 +134,19 @@ func execC14(t *testing.T, c C14Case) (v Verdict) {
 			}
 		}
 		for _, m := range []string{"ok", "herr", "early", "wait", "sendwait"} {
-			svc.Stream("s-"+m, true, true, streamH(m))
+			m := m
+			inner := streamH(m)
+			svc.Stream("s-"+m, true, true, func(s grpcServerStream) error {
+				liveMu.Lock()
+				live["s-"+m]++
+				liveMu.Unlock()
+				defer func() {
+					liveMu.Lock()
+					live["s-"+m]--
+					liveMu.Unlock()
+				}()
+				return inner(s)
+			})
 		}
 		w := kit.NewWorld(kit.Topo{Kind: "direct", Serialize: c.Ser, Clients: 1}, svc, nil, nil)
 		w.Links[0].Tap = nil
@@ -231,6 +247,8 @@ func execC14(t *testing.T, c C14Case) (v Verdict) {
 			}
 			wg.Wait()
 			kit.Settle()
+			time.Sleep(200 * time.Millisecond) // lets the abandoned unary handlers above finish (virtual time)
+			kit.Settle()
 			if len(round) >= 8 {
 				bigRound = true
 			}
@@ -239,7 +257,9 @@ func execC14(t *testing.T, c C14Case) (v Verdict) {
 				v.failf("round %d: %d calls still registered in the client connection with no RPC in flight", ri, n)
 			}
 			if n := goat.VerifServerStreams(); n != 0 {
-				v.failf("round %d: %d streams still registered in the server connection with no RPC in flight", ri, n)
+				liveMu.Lock()
+				v.failf("round %d: %d streams still registered in the server connection with no RPC in flight (handlers still running: %v)", ri, n, live)
+				liveMu.Unlock()
 			}
 			now := creationSites(kit.LiveInBubble())
 			if strings.Join(now, "\n") != strings.Join(idle, "\n") {
